@@ -74,6 +74,19 @@ def base_ty(ty):
     return ty
 
 
+def extend_org(org, rest):
+    rest = tuple(rest)
+    if not rest:
+        return org
+    if org[0] == "param":
+        return ("param", org[1], org[2] + rest)
+    if org[0] == "call":
+        return ("call", org[1], org[2] + rest)
+    if org[0] == "agg":
+        return ("agg", org[1], org[2], org[3] + rest)
+    return ("unknown", "proj of %s" % org[0])
+
+
 class Body:
     def __init__(self, d, facts):
         self.d = d
@@ -339,14 +352,28 @@ class Body:
         """local -> list of (kind, bb, idx, dstproj, payload)"""
         if self._defs is None:
             D = collections.defaultdict(list)
+            S = []
             for bid, blk in self.blocks.items():
                 for i, s in enumerate(blk["stmts"]):
+                    if "deref" in s["dst"]["proj"]:
+                        # a store through a pointer is not a definition of the pointer local
+                        S.append((bid, i, s["dst"], s["rv"], s.get("line")))
+                        continue
                     D[s["dst"]["local"]].append(("stmt", bid, i, projnames(s["dst"]["proj"]), s["rv"], s["dst"]["proj"]))
                 t = blk["term"]
                 if t["k"] == "call":
+                    if "deref" in t["dst"]["proj"]:
+                        S.append((bid, -1, t["dst"], t, t["line"]))
+                        continue
                     D[t["dst"]["local"]].append(("call", bid, -1, projnames(t["dst"]["proj"]), t, t["dst"]["proj"]))
             self._defs = D
+            self._stores = S
         return self._defs
+
+    def stores(self):
+        """stores through pointers: (bb, stmt idx, dst place, rvalue-or-call-term, line)"""
+        self.defs()
+        return self._stores
 
     def origin(self, place, _depth=0, _seen=None):
         """Value origin of a place (see module doc of DESIGN 2.2 P3).  Result is a hashable tuple:
@@ -477,6 +504,49 @@ class Body:
         if idx is None or idx >= len(rv["ops"]):
             return None
         return rv["ops"][idx], rest[i + 1:]
+
+    def roots(self, org, _seen=None, _depth=0):
+        """Leaves of the value-dependency graph behind an origin: params (with projection),
+        constants, argument-less calls.  Call results depend on all their arguments; a local that
+        is passed by `&mut` to later calls also depends on the other arguments of those calls."""
+        _seen = _seen if _seen is not None else set()
+        if org in _seen or _depth > 25:
+            return set()
+        _seen.add(org)
+        k = org[0]
+        if k in ("param", "const", "unknown"):
+            return {org}
+        out = set()
+        if k == "call":
+            t = self.term(org[1])
+            if not t["args"]:
+                out.add(org)
+            for a in t["args"]:
+                ao = self.operand_origin(a)
+                out |= self.roots(ao, _seen, _depth + 1)
+            # mutation of this value through &mut in other calls
+            base = ("call", org[1], ())
+            for bb, t2 in self.calls():
+                if bb == org[1]:
+                    continue
+                aos = [self.operand_origin(a) for a in t2["args"]]
+                if base in aos and t2["args"] and str(t2["args"][aos.index(base)].get("ty", "")).startswith("&mut"):
+                    for ao in aos:
+                        if ao != base:
+                            out |= self.roots(ao, _seen, _depth + 1)
+        elif k == "agg":
+            rv = self.blocks[org[1]]["stmts"][org[2]]["rv"]
+            for o in rv.get("ops", []):
+                out |= self.roots(self.operand_origin(o), _seen, _depth + 1)
+        elif k == "op":
+            for o in org[2]:
+                out |= self.roots(o, _seen, _depth + 1)
+        elif k == "discr":
+            out |= self.roots(org[1], _seen, _depth + 1)
+        elif k == "phi":
+            for o in org[2]:
+                out |= self.roots(o, _seen, _depth + 1)
+        return out
 
     # ------------------------------------------------------------- helpers
     def arg_origin(self, bb, i):
@@ -684,6 +754,18 @@ class Facts:
         if k >= len(rv["ops"]):
             return parent, ("unknown", "capture idx")
         return parent, parent.operand_origin(rv["ops"][k])
+
+    def root_origin(self, body, org):
+        """lift an origin that names a closure capture into the body that built the closure"""
+        n = 0
+        while body.kind == "Closure" and org[0] == "param" and org[1] == 1 and org[2] and n < 8:
+            parent, porg = self.capture_origin(body, org[2][0])
+            if parent is None:
+                break
+            org = extend_org(porg, org[2][1:])
+            body = parent
+            n += 1
+        return body, org
 
     def reach(self, roots, stop=lambda b: False, edge_filter=None):
         """bodies reachable over the call graph from root bodies (closures built in a body count as called)"""
